@@ -3,13 +3,16 @@
     ToFiftHex / GetTopUppedArray.
 
     [Model.BitString.read_bits] returns the ideal bit list of the result.  Here
-    the result is a [bs] with the buffer the Go code really builds: the
-    byte-aligned fast path of ReadBits copies WHOLE BYTES, so for n mod 8 <> 0
-    the last byte of the result keeps the source's following bits after
-    position n ("stale bits" past [len]).  Every function that later writes
-    into such a string (Append, WriteBitString, the completion tag and padding
-    of ToFiftHex / GetTopUppedArray) goes through WriteBit, which must clear
-    the bit when it writes [false].
+    the result is a [bs] with the buffer the Go code really builds.  The
+    byte-aligned fast path of ReadBits copies whole bytes and then clears the
+    bits of the last byte past n (repair "fix: ReadBits clears the bits past the
+    requested length ..."; before it the last byte kept the source's following
+    bits, see Proofs/C06History.v).  Bits past [len] can still be anything:
+    On(n) / Off(n) are exported and write any position below cap without
+    touching len ([set_bit]), Copy keeps them, Grow leaves them.  Every function
+    that later writes into such a string (Append, WriteBitString, the
+    completion tag and padding of ToFiftHex / GetTopUppedArray) goes through
+    WriteBit, which must clear the bit when it writes [false].
 
     The functions are parameterised by the single-bit writer [wb] so that the
     same definitions can be instantiated with the real WriteBit
@@ -44,7 +47,9 @@ Section Writer.
       (* bitString := NewBitString(n); copy(bitString.buf, s.buf[c : c+len(bitString.buf)]) *)
       if short (8 * (rcur s / 8 + nbytes n)) (buf s) then (s, Panic PSlice)
       else (set_rcur s (rcur s + n),
-            Ok (mkbs (firstn (8 * nbytes n) (skipn (8 * (rcur s / 8)) (buf s))) n n 0))
+            (* ... and the bits of the last byte past n are cleared:
+               buf[last] &= 0xFF << (8 - n%8) *)
+            Ok (mkbs (firstn n (skipn (8 * (rcur s / 8)) (buf s)) ++ zeros (8 * nbytes n - n)) n n 0))
     else
       (* bit loop: ReadBit / bitString.WriteBit *)
       if short (rcur s + n) (buf s) then (s, Panic PIndex)
@@ -60,6 +65,15 @@ Section Writer.
     | (s', Ok r) => (s', r)
     | (s', _) => (s', mkbs [] 0 0 0)
     end.
+
+  (* On(n) / Off(n): range check against cap, then the bit is set in place;
+     len is not touched (n may lie before or after it) *)
+  Definition set_bit (n : nat) (v : bool) (s : bs) : bs * res unit :=
+    if cap s <=? n then (s, Err EOverflow)
+    else match set_nth_opt n v (buf s) with
+         | None => (s, Panic PIndex)
+         | Some b' => (mkbs b' (cap s) (len s) (rcur s), Ok tt)
+         end.
 
   (* Copy: same bytes, read cursor 0 *)
   Definition copy_bs (s : bs) : bs := mkbs (buf s) (cap s) (len s) 0.
